@@ -20,12 +20,7 @@ EXPLANATION = (
 )
 
 
-def find_fn(rep, F, key):
-    ids = F.by_key(key)
-    if len(ids) != 1:
-        rep.lost("function %s not found (got %d candidates)" % (key, len(ids)))
-        return None
-    return ids[0]
+from ruleutil import find_fn, fields_read, run_mustflow
 
 
 def check(rep, F, tier, replay=None):
@@ -128,58 +123,3 @@ def check(rep, F, tier, replay=None):
     return rep.finish(EXPLANATION, ["the ledger table in tables/c20_ledger.json is a correct transcription of the Conway rules", "the explicit-amount fields are named `coin`/`deposit` (resolved field names, checked by the compiler)"], ["rustc HIR/typeck + MIR (csl-facts)", "tables/c20_ledger.json", "tables/mustflow.json"])
 
 
-def fields_read(F, fid, depth=3):
-    """(adt, field) pairs appearing in places of fid and its local callees up to `depth`"""
-    import re
-    seen = set()
-    out = set()
-    work = [(fid, 0)]
-    while work:
-        f, d = work.pop()
-        if f in seen or f not in F.fns:
-            continue
-        seen.add(f)
-        fn = F.fns[f]
-        txt = json.dumps(fn["bbs"])
-        for m in re.finditer(r"f:([^:|\"]+(?:::[^:|\"]+)*):[^:|\"]*:([A-Za-z0-9_]+)", txt):
-            out.add((m.group(1), m.group(2)))
-        if d < depth:
-            for c in F.calls(f):
-                if c.info.get("local") and c.to in F.fns:
-                    work.append((c.to, d + 1))
-            for cl in F.closures_of.get(f, []):
-                work.append((cl, d))
-    return out
-
-
-def run_mustflow(rep, F, entries):
-    rep.rule("MF", "on every success path, the returned value is derived from the source term (flow-sensitive must-flow on MIR)")
-    for e in entries:
-        ids = F.by_key(e["fn"])
-        if len(ids) != 1:
-            rep.lost("mustflow anchor %s not found" % e["fn"])
-            continue
-        fid = ids[0]
-        ff = mustflow.FnFlow(F, fid)
-        for src in e["sources"]:
-            rep.inst("MF")
-            if src.startswith("arg:"):
-                res = ff.run(("arg", int(src[4:])))
-                sites = [None]
-                allres = [res]
-            else:
-                cs = mustflow.find_calls(F, fid, lambda to, c: to.endswith(src) or F.key(to) .endswith(src) if to in F.fns else to.endswith(src))
-                if not cs:
-                    rep.violation("MF", "%s|%s|missing" % (e["fn"], src), "%s no longer calls %s: the term it contributed (%s) is missing from the total" % (e["fn"], src, e.get("what", "")), {"function": e["fn"], "source": src})
-                    continue
-                allres = [ff.run(("call", c.bb)) for c in cs]
-            for res in allres:
-                bad = [r for r in res if not r["ok"]]
-                if not res:
-                    rep.violation("MF", "%s|%s|noreturn" % (e["fn"], src), "%s: no success return is reachable after computing %s" % (e["fn"], src), {"function": e["fn"], "source": src})
-                elif bad:
-                    import facts
-                    where = ", ".join(facts.loc_str(r["loc"], F.fns[fid]) for r in bad)
-                    rep.violation("MF", "%s|%s" % (e["fn"], src), "%s: the value returned at %s is not derived from %s on some path (term dropped or accumulator overwritten) — %s" % (e["fn"], where, src, e.get("what", "")), {"function": e["fn"], "source": src, "returns": bad})
-                else:
-                    rep.sample({"mustflow": e["fn"], "source": src, "success_returns_checked": len(res)})
